@@ -84,6 +84,12 @@ func (g *c18gen) op() {
 			g.b.WriteString(fmt.Sprintf(`{{ %s := %q }}`, name, v))
 			top[name] = true
 		}
+	case k == 6 && g.r.Intn(2) == 0:
+		// a variable that exists but holds nil: SetOrLet from a deeper scope must still rebind it like '='
+		g.feat["let-nil"] = true
+		g.a.WriteString(fmt.Sprintf(`{{ letnil(%q) }}`, name))
+		g.b.WriteString(fmt.Sprintf(`{{ %s := nil }}`, name))
+		top[name] = true
 	case k < 8:
 		if g.visible(name) {
 			g.feat["resolve"] = true
@@ -208,6 +214,7 @@ func c18vars(log *[]string, empty bool) jet.VarMap {
 		}
 		return none
 	})
+	vars.SetFunc("letnil", func(a jet.Arguments) reflect.Value { a.Runtime().Let(str(a, 0), nil); return none })
 	vars.SetFunc("setorlet", func(a jet.Arguments) reflect.Value { a.Runtime().SetOrLet(str(a, 0), str(a, 1)); return none })
 	vars.SetFunc("letglobal", func(a jet.Arguments) reflect.Value { a.Runtime().LetGlobal(str(a, 0), str(a, 1)); return none })
 	vars.SetFunc("resolve", func(a jet.Arguments) reflect.Value { return a.Runtime().Resolve(str(a, 0)) })
@@ -264,7 +271,7 @@ func c18run(c *fw.Ctx, idx int) {
 	c.Eval(2)
 	c.Count("twins", 1)
 	var feats []string
-	for _, k := range []string{"let", "set", "set-undeclared", "setorlet", "resolve", "context", "yieldblock", "yieldblock-ctx", "letglobal", "in-if", "in-range", "in-block", "in-include", "in-try"} {
+	for _, k := range []string{"let-nil", "let", "set", "set-undeclared", "setorlet", "resolve", "context", "yieldblock", "yieldblock-ctx", "letglobal", "in-if", "in-range", "in-block", "in-include", "in-try"} {
 		if g.feat[k] {
 			feats = append(feats, k)
 			c.Count("feature:"+k, 1)
